@@ -6,6 +6,7 @@ import (
 	"unicode/utf16"
 	"unicode/utf8"
 
+	"github.com/tsawler/tabula"
 	"github.com/tsawler/tabula/core"
 	"github.com/tsawler/tabula/font"
 	"golang.org/x/text/encoding/charmap"
@@ -360,6 +361,47 @@ func init() {
 				continue
 			}
 			checkMap(rng, entries, width, rng.Intn(6))
+		}
+		// (c1) the font a name selects is the one of the resources in force: a form's font of the same name
+		// as a page font decodes the form's text only, not the page text that follows the form
+		{
+			cm := "/CIDInit /ProcSet findresource begin 12 dict begin begincmap 1 begincodespacerange <00> <FF> endcodespacerange 3 beginbfchar <41> <0058> <42> <0059> <43> <005A> endbfchar endcmap end end"
+			for _, inner := range []bool{false, true} {
+				formRes := "/Resources << /Font << /F1 8 0 R >> >>"
+				formBody := "BT /F1 10 Tf 10 10 Td (ABC) Tj ET"
+				objs := []string{
+					"<< /Type /Catalog /Pages 2 0 R >>",
+					"<< /Type /Pages /Kids [3 0 R] /Count 1 /MediaBox [0 0 612 792] >>",
+					"<< /Type /Page /Parent 2 0 R /Resources 6 0 R /Contents 4 0 R >>",
+					c02StreamObj("", []byte("BT /F1 12 Tf 72 700 Td (ABC before) Tj ET /Fm Do BT /F1 12 Tf 72 650 Td (ABC after) Tj ET")),
+					"<< /Type /Font /Subtype /Type1 /BaseFont /Helvetica /Encoding /WinAnsiEncoding >>",
+					"<< /Font << /F1 5 0 R >> /XObject << /Fm 7 0 R >> >>",
+					"", // the form
+					"<< /Type /Font /Subtype /TrueType /BaseFont /ABCDEF+Sub /FirstChar 32 /LastChar 32 /Widths [250] /ToUnicode 9 0 R >>",
+					c02StreamObj("", []byte(cm)),
+				}
+				if inner {
+					// the form draws a second form which brings the font; the outer form has no font of its own
+					formRes = "/Resources << /XObject << /In 10 0 R >> >>"
+					formBody = "BT /F1 10 Tf 10 30 Td (ABC outer) Tj ET /In Do BT /F1 10 Tf 10 50 Td (ABC outer again) Tj ET"
+					objs = append(objs, c02StreamObj("/Type /XObject /Subtype /Form /BBox [0 0 200 200] /Resources << /Font << /F1 8 0 R >> >>", []byte("BT /F1 10 Tf 10 10 Td (ABC) Tj ET")))
+				}
+				objs[6] = c02StreamObj("/Type /XObject /Subtype /Form /BBox [0 0 200 200] "+formRes, []byte(formBody))
+				p := tmpFile(r, ".pdf", c02RawPDF(objs, ""))
+				txt, _, err := tabula.Open(p).Text()
+				want := []string{"ABC before", "XYZ", "ABC after"}
+				if inner {
+					want = []string{"ABC before", "ABC outer", "XYZ", "ABC outer again", "ABC after"}
+				}
+				// the layout orders the lines by position: only which strings are there is compared
+				ok := err == nil
+				for _, w := range want {
+					if !strings.Contains(txt, w) {
+						ok = false
+					}
+				}
+				r.Check(ok && strings.Count(txt, "XYZ") == 1, "font-scope:form", fmt.Sprintf("page font F1 (WinAnsi) and a form font F1 (ToUnicode A->X B->Y C->Z): the page reads %q (%v), expected (in any order) %q, XYZ once", txt, err, want), Bs(p))
+			}
 		}
 		// (c2) a ToUnicode map also decides strings that happen to begin like a byte-order mark
 		for it := 0; it < 40; it++ {
